@@ -49,6 +49,7 @@ def exprOk (G : List (String × GVal)) : PyExpr → Bool
   | .cmp l _ rs => exprOk G l && exprsOk G rs
   | .ife c t e => isCmp c && exprOk G c && exprOk G t && exprOk G e
   | .call _ args => exprsOk G args
+  | .callKw _ args => exprsOk G args
   | .unsupported => true
 def exprsOk (G : List (String × GVal)) : List PyExpr → Bool
   | [] => true
